@@ -5,12 +5,13 @@
    interpreter limit: known finding).  No IndexError / KeyError / AttributeError / AssertionError
    and no fuel exhaustion (the loops terminate).  Also proved: the two documented failure routes
    end in EncoderError; the inputs the property names are rejected with EncoderError.
-   Not proved: crash freedom of the later stages (kekulisation / matching / emission); outcome
+   Last stage (proofs/EncFuel.v): after reader and kekulize, no OutOfFuel.  Not proved: crash freedom of kekulisation /
+   matching and of emission beyond fuel; outcome
    classes of implementation and model are compared on malformed input on every run. *)
 From Coq Require Import String List ZArith NArith Bool.
 Import ListNotations.
 From Selfies Require Import Base Generated Atoms Grammar Decoder PySet Matching Smiles Kekulize Encoder
-  IndexSpec IndexCode Reader RoundTrip EncoderFacts PureFacts ParserTotal.
+  IndexSpec IndexCode Reader RoundTrip EncoderFacts PureFacts ParserTotal EncFuel.
 Local Open Scope string_scope.
 
 Theorem C09_parse_error_is_encoder_error_partial : forall capf s strict attribute,
@@ -46,8 +47,17 @@ Proof.
   destruct (smiles_to_mol s attribute) as [m0|e]; [left; eauto|]. destruct H as [-> | ->]; auto.
 Qed.
 
+(* last stage: once the reader and kekulize have returned, nothing in encoder() - strict check, inversion pass, the
+   walk that emits the symbols - can end in the model's OutOfFuel: tree bonds lead to atoms of larger index, so one unit
+   of fuel per atom suffices (the fuel of the walk is a modelling device, never an outcome) *)
+Theorem C09_emission_never_out_of_fuel_partial : forall T smiles strict attribute m0 m1 e,
+  smiles_to_mol smiles attribute = Ok m0 -> kekulize m0 = Ok (Some m1) ->
+  encoder T smiles strict attribute = Err e -> e <> OutOfFuel.
+Proof. exact encoder_after_kekulize_no_fuel. Qed.
+
 Print Assumptions C09_parse_error_is_encoder_error_partial.
 Print Assumptions C09_parser_total_partial.
 Print Assumptions C09_first_stage_outcomes_partial.
 Print Assumptions C09_kekulize_failure_is_encoder_error_partial.
 Print Assumptions C09_named_inputs_partial.
+Print Assumptions C09_emission_never_out_of_fuel_partial.
